@@ -9,7 +9,7 @@
 From Coq Require Import List NArith Bool.
 From HIDI Require Import Model.Watcher.
 Import ListNotations.
-Open Scope N_scope.
+Local Open Scope N_scope.
 
 Inductive opkind :=
 | TruncWrite    (* open(O_WRONLY|O_TRUNC); one write; close        -> MODIFY (truncate), MODIFY (write); may coalesce *)
